@@ -91,6 +91,7 @@ inductive InitSpec (maxRate ts tol E T V P cap init : K) : Prop
       (hfeas : ¬ deltaSocFrom (closedInitSoc maxRate ts E T V P cap).2.1 T ts 0 <
                 (closedInitSoc maxRate ts E T V P cap).1)
       (hs1 : s ≤ 1)
+      (hlb : ts - (closedInitSoc maxRate ts E T V P cap).2.1 * T ≤ s)
       (htol : |deltaSocFrom (closedInitSoc maxRate ts E T V P cap).2.1 T ts s -
                 (closedInitSoc maxRate ts E T V P cap).1| < tol)
       (hi : init = s * cap)
@@ -113,8 +114,8 @@ theorem getInitCap_spec {maxRate ts tol E T V P cap init : K} {fuel : Nat}
       · rename_i s hs
         injection h with h
         have hle : ts - (closedInitSoc maxRate ts E T V P cap).2.1 * T ≤ 1 := by linarith
-        obtain ⟨-, h2, h3⟩ := binsearch_spec _ _ _ _ _ _ _ hle hs
-        exact .bisect s ‹_› ‹_› h2 h3 h.symm
+        obtain ⟨h1, h2, h3⟩ := binsearch_spec _ _ _ _ _ _ _ hle hs
+        exact .bisect s ‹_› ‹_› h2 h1 h3 h.symm
 
 /-- what the ladder loop of `batt_cap_fn` returns -/
 theorem battCapFn_spec {maxRate ts tol E T V P cap init : K} {fuel : Nat} :
